@@ -47,9 +47,57 @@ def strip_conv(t):
     return t
 
 
-def post_loop_actions(facts, body, state_local, variants, subject_ok):
+def state_dispatch(body, state_local, loop_blocks):
+    """the `match state {..}` after the scan loop: (block, {variant: arm target}) or None"""
+    for b in range(len(body.blocks)):
+        if b in loop_blocks or body.is_cleanup(b) or body.blocks[b].get("dead"):
+            continue
+        sl = scanact.switch_local(body, b)
+        if sl is not None and sl[0] == state_local and sl[1]:
+            arms = {}
+            for (lab, tg) in body.edges(b):
+                if lab != "otherwise" and lab[1] < len(sl[2]):
+                    arms.setdefault(sl[2][lab[1]], tg)
+            return b, arms
+    return None
+
+
+def bypass_state(body, dispatch, exit_bb):
+    """A loop exit that jumps straight into one arm of the state match (`return State::V` out of an inlined scan helper,
+    threaded past the match) leaves the scan *as if* in state V.  Returns (V, blocks walked) or None when the exit reaches
+    the match itself."""
+    if dispatch is None:
+        return None
+    D, arms = dispatch
+    targets = {}
+    for v, tg in arms.items():
+        targets.setdefault(tg, []).append(v)
+    cur = exit_bb
+    walked = []
+    for _ in range(8):
+        if cur == D:
+            return None
+        if cur in targets:
+            return (targets[cur][0], walked) if len(targets[cur]) == 1 else None
+        t = body.term(cur)
+        if t["t"] != "goto" or not all(st.get("s") != "assign" or st["rv"]["r"] in ("use", "discr", "aggregate") for st in body.blocks[cur]["stmts"]):
+            return None
+        walked.append(cur)
+        cur = t["target"]
+    return None
+
+
+def post_loop_actions(facts, body, state_local, variants, subject_ok, dispatch=None, bypass_blocks=()):
     """variant -> action in {'id','ascii_lower','unicode_lower','?...'} read from the code after the scan loop."""
     acts = {}
+    arm_entry = {}
+    if dispatch is not None and bypass_blocks:
+        D, arms = dispatch
+        for v, tg in arms.items():
+            # the arm is entered only from the match and from the by-passing exits accounted for as state v
+            if all(p == D or p in bypass_blocks for p in body.preds()[tg] if not body.is_cleanup(p)) and list(arms.values()).count(tg) == 1:
+                arm_entry[tg] = v
+
     # which blocks are guarded by `state is V`
     def variant_of(bb):
         vs = set()
@@ -58,6 +106,9 @@ def post_loop_actions(facts, body, state_local, variants, subject_ok):
             if sl is not None and sl[0] == state_local and a[0] in ("is", "isin"):
                 if a[0] == "is":
                     vs.add(a[2])
+        for tg, v in arm_entry.items():
+            if body.dominates(tg, bb):
+                vs.add(v)
         return vs
 
     effs = models.mut_effects(body)
@@ -162,6 +213,8 @@ def guardxform_obligations(ctx, facts, key, rule="GUARDXFORM"):
         union |= a
     ctx.ob(rule, "%s: the loop body's branch conditions partition the char domain" % key, union == U and disjoint and not any(p["pre"] for p in paths), fn=key, site=site, detail="%d paths; union complete=%s disjoint=%s" % (len(paths), union == U, disjoint))
     # abstract run: seen[state] = chars that may have been consumed while ending up in `state`
+    dispatch = state_dispatch(body, S, loop["blocks"])
+    bypass_blocks = set()
     seen = {init: 0}
     final = {}
     reached = {init}
@@ -180,6 +233,11 @@ def guardxform_obligations(ctx, facts, key, rule="GUARDXFORM"):
                         seen[s2] = seen.get(s2, 0) | new
                         changed = True
                 elif p["exit"] == "break":
+                    by = bypass_state(body, dispatch, p["blocks"][-1])
+                    if by is not None:
+                        s2 = by[0]
+                        bypass_blocks.update(by[1])
+                        bypass_blocks.add(p["blocks"][-2])
                     if final.get(s2) != U:
                         final[s2] = U  # the unscanned rest of the string is arbitrary
                         changed = True
@@ -187,7 +245,8 @@ def guardxform_obligations(ctx, facts, key, rule="GUARDXFORM"):
                     raise AnchorError("loop path leaves the function", key)
     for s in reached:
         final[s] = final.get(s, 0) | seen.get(s, 0)
-    actions = post_loop_actions(facts, body, S, variants, subject_ok)
+    variants = sorted(set(variants) | set(v for v in final if isinstance(v, str)))   # states only a by-passing exit produces
+    actions = post_loop_actions(facts, body, S, variants, subject_ok, dispatch, bypass_blocks)
     for v in variants:
         act = actions.get(v, "?none")
         if v not in final:
@@ -254,6 +313,8 @@ def fst_pypi_obligations(ctx, facts, key, lowercaser_key, rule="FST-PYPI"):
             else:
                 eff.append(("?", pth))
         asg = p["assign"].get(S)
+        if asg and isinstance(pre, tuple) and pre == (asg[1],):
+            asg = None   # re-assigning the only value the flag can have on this path (`mem::replace(&mut flag, true)`)
         table[(cls, pre)] = (tuple(eff), asg[1] if asg else None, p["exit"])
     want = {
         ("dash", (False,)): ((("emit", "-"),), True, "continue"),
